@@ -253,6 +253,10 @@ func (pe *pathEvaluator) run(target func(Pt) bool, init map[string]absVal, visit
 				}
 				d = append(append([]decision{}, dec...), decision{cond, si})
 			}
+			if cond != nil && isCase {
+				// the label a switch was entered (or passed) through: lets a visitor tell the worlds of a switch apart
+				d = append(append([]decision{}, dec...), decision{cond, si})
+			}
 			onPath[s] = true
 			ne := make(map[string]absVal, len(env))
 			for k, v := range env {
